@@ -76,3 +76,7 @@ func VH_C13_DepartureAlwaysAnnounced() {
 	vAssert("departure_announced_once", len(out) == 1 && out[0].ClientID == a.ID && out[0].Type == TranNotifyDeleteUser)
 	vAssert("departed_not_listed", len(srv.ClientMgr.List()) == 1)
 }
+
+// A private message, invitation or notice addressed to the ID a user holds reaches that user whatever the ID is -
+// 0 and 0xFFFF are IDs like any other once the counter has wrapped.
+func VH_C13_MessageReachesTheHolderOfAnyID() { cDeliverToHeldID() }
